@@ -229,12 +229,12 @@ def emit_region(text, probe):
     out = []
     for n, s in enumerate(segs):
         if s.prov == "probe":
-            out.append(" assert(false); ")
+            out.append(" assert(false); /*@P*/ ")
             n_probe += 1
             continue
         out.append(s.text)
         if bo is not None and n == bo:
-            out.append(" assert(false); ")
+            out.append(" assert(false); /*@P*/ ")
             n_probe += 1
     return "".join(out), n_probe
 
@@ -299,6 +299,8 @@ class Unit:
                 self.do_item(relpath, i + 1, srcfile.strip(), ipath.strip(), region, probe_ok)
                 i = j + 1
                 continue
+            if self.probe and "/*@probe*/" in ln:
+                ln = ln.replace("/*@probe*/", " assert(false); /*@P*/ ")
             self.lines.append(ln)
             i += 1
 
@@ -306,7 +308,7 @@ class Unit:
         where = "%s:%d [%s :: %s]" % (unitfile, unitline, srcfile, ipath)
         text = self.src(srcfile)
         try:
-            s, e, _ = locate(text, ipath)
+            s, e, body_at = locate(text, ipath)
         except LocateError as ex:
             raise ExtractError("%s: %s" % (where, ex))
         slice_text = text[s:e]
@@ -334,6 +336,7 @@ class Unit:
             "rewrites": rewrites, "status": "identical" if merged is None else "merged",
             "source_changes": changes, "gen_lines": [gen_first, gen_last], "unit_file": unitfile,
             "fn": fn_name, "probes": n_probe,
+            "kind": ("fn" if body_at is not None else "fn_decl") if fn_name else "type",
         }
         self.items.append(rep)
 
@@ -359,7 +362,7 @@ def generate(root, outdir, probe=False, repo=None):
     u = Unit(root, repo=repo, probe=probe)
     u.process(root)
     text, trusted = u.render()
-    name = os.path.splitext(os.path.basename(root))[0] + (".probe" if probe else "")
+    name = os.path.splitext(os.path.basename(root))[0] + ("_probe" if probe else "")
     os.makedirs(outdir, exist_ok=True)
     out = os.path.join(outdir, name + ".rs")
     with open(out, "w") as f:
